@@ -24,6 +24,16 @@ def fresh_name(prefix):
     return f"{prefix}!{next(_ctr)}"
 
 
+def random_name(prefix):
+    """name of a RANDOM draw (torch.rand, randperm, the points an abstract domain hands out ...): numbered by the
+    position in the stream of draws of the current path, so that two executions started from the same stream position
+    (Session.rng_mark / rng_reset: 'the same generator state') see the same draws"""
+    g = ctx().ghost
+    k = g.get("rng_position", 0)
+    g["rng_position"] = k + 1
+    return f"{prefix}!r{k}"
+
+
 class Unsupported(Exception):
     """The engine cannot interpret a construct -> checker error (exit 3), never a verdict."""
 
@@ -380,12 +390,12 @@ def const_tensor(val, dtype=None):
     return STensor([], lambda idx: t, dtype)
 
 
-def uninterp_tensor(name, shape, dtype="real", on_access=None):
+def uninterp_tensor(name, shape, dtype="real", on_access=None, random=False):
     """Tensor of unknown contents: elements are applications of a fresh uninterpreted function
     to the multi-index components.  on_access(idx, value) may register axioms."""
     arity = sum(len(d.factors) for d in shape)
     rng = SORTS[dtype]()
-    nm = fresh_name(name)
+    nm = random_name(name) if random else fresh_name(name)
     f = z3.Function(nm, *([z3.IntSort()] * arity + [rng])) if arity else None
     c = z3.Const(nm, rng) if not arity else None
 
@@ -420,6 +430,36 @@ class Obligation:
         self.name, self.kind, self.hyps, self.goal, self.loc, self.meta = name, kind, hyps, goal, loc, meta or {}
 
 
+_SYMS = {}
+_NO_CONE = [bool(__import__('os').environ.get('TPV_NO_CONE'))]
+RESET_HOOKS.append(_SYMS.clear)
+
+
+def _symbols_of(f):
+    """names of the uninterpreted constants and functions of a formula (memoised per term)"""
+    k = f.get_id()
+    r = _SYMS.get(k)
+    if r is not None and r[0].eq(f):
+        return r[1]
+    out, stack, seen = set(), [f], set()
+    while stack:
+        e = stack.pop()
+        i = e.get_id()
+        if i in seen:
+            continue
+        seen.add(i)
+        if z3.is_app(e):
+            d = e.decl()
+            if d.kind() == z3.Z3_OP_UNINTERPRETED:
+                out.add(d.name())
+            stack.extend(e.children())
+        elif z3.is_quantifier(e):
+            stack.append(e.body())
+    out = frozenset(out)
+    _SYMS[k] = (f, out)
+    return out
+
+
 class Ctx:
     """One per explored path: path condition, definitional axioms, obligations, ghost state."""
 
@@ -449,11 +489,30 @@ class Ctx:
         self._axiom_keys.add(k)
         self.axioms.append(f)
 
-    def _solver(self, timeout):
+    def _solver(self, timeout, about=None):
+        """solver holding the path condition and the axioms -- or, when `about` (a formula) is given, only their cone
+        of influence: the formulas connected to `about` through shared uninterpreted symbols.  The rest shares no
+        symbol with the cone, so (the path being consistent) it cannot change the answer; dropping it only ever
+        makes 'unsat' harder to obtain, which both callers treat conservatively."""
         s = z3.Solver()
         s.set("timeout", timeout)
-        s.add(self.pc)
-        s.add(self.axioms)
+        if about is None or _NO_CONE[0]:
+            s.add(self.pc)
+            s.add(self.axioms)
+            return s
+        syms = set(_symbols_of(about))
+        pool = [(f, _symbols_of(f)) for f in list(self.pc) + list(self.axioms)]
+        changed = True
+        taken = [False] * len(pool)
+        while changed:
+            changed = False
+            for k, (f, fs) in enumerate(pool):
+                if not taken[k] and (not fs or not syms.isdisjoint(fs)):
+                    taken[k] = True
+                    if not fs <= syms:
+                        syms |= fs
+                        changed = True
+        s.add([f for k, (f, _) in enumerate(pool) if taken[k]])
         return s
 
     def entails(self, f, timeout=None):
@@ -462,14 +521,14 @@ class Ctx:
         f = z3.simplify(f)
         if z3.is_true(f):
             return True
-        s = self._solver(timeout or self.branch_timeout)
+        s = self._solver(timeout or self.branch_timeout, about=f)
         s.add(z3.Not(f))
         return s.check() == z3.unsat
 
     def feasible(self, f, timeout=None):
         if isinstance(f, bool):
             return f
-        s = self._solver(timeout or self.branch_timeout)
+        s = self._solver(timeout or self.branch_timeout, about=f)
         s.add(f)
         return s.check() != z3.unsat
 
